@@ -89,6 +89,42 @@ def check(kind, v, b=None):
     return None
 
 
+def check_kinds(body, order):
+    """The same body text as compressed number, compressed string and plain string, evaluated in the
+    given order in one process: each literal must evaluate by its own kind whatever came before."""
+    cp = vyxal.encoding.codepage
+    num_alpha, str_alpha, b27 = cp.replace("»", ""), cp.replace("«", ""), " abcdefghijklmnopqrstuvwxyz"
+
+    def dec(alpha):
+        n = 0
+        for ch in body:
+            n = n * len(alpha) + alpha.index(ch)
+        return n
+
+    def to27(n):
+        out = ""
+        while True:
+            n, d = divmod(n, 27)
+            out = b27[d] + out
+            if n == 0:
+                return out
+
+    for kind in order:
+        text, want = {"num": ("»" + body + "»", dec(num_alpha)), "str": ("«" + body + "«", to27(dec(str_alpha))),
+                      "raw": ("`" + body + "`", body)}[kind]
+        try:
+            got = _run_literal(text, dc=False)
+            ok = len(got) == 1 and (harness.exact_number(got[0]) == want if kind == "num" else got[0] == want)
+            msg = f"{text!r} evaluated to {got!r}, expected [{want!r}]"
+        except (harness.FuelExhausted, harness.Inconclusive):
+            raise
+        except Exception as e:  # noqa: BLE001
+            ok, msg = False, f"{text!r} raised {type(e).__name__}: {e}"
+        if not ok:
+            return (f"C15:literal-kind-{kind}:after-other-kinds", f"body {body!r} evaluated as {' then '.join(order)} in one process: {msg}")
+    return None
+
+
 def _do(rec, kind, v, b=None, cls=None):
     r = check(kind, v, b)
     if kind == "øC":
@@ -141,6 +177,19 @@ def _shard(rec, arg):
             _do(rec, "øD", "the " + w + " of 42!", cls="øD-every-dictionary-word-in-sentence")
         if shard == 0:
             rec.notes["dictionary_words"] = len(ws)
+    elif what == "kinds":
+        _, shard, nshards = arg
+        bodies = [a + b_ for a in "D8ƛλaZ¬+" for b_ in ["", "D", "λ", "1", "ɾ"]]
+        i = 0
+        for body in bodies:
+            for order in itertools.permutations(["num", "str", "raw"]):
+                i += 1
+                if i % nshards != shard:
+                    continue
+                r = check_kinds(body, list(order))
+                rec.case(key=(body, order), nontrivial=len(body) >= 2, cls=["literal-kinds-in-one-process"], n=3)
+                if r:
+                    rec.fail(r[0], {"kind": "kinds", "body": body, "order": list(order)}, r[1])
     elif what == "τβ-small":
         _, bases, nmax = arg
         for b in bases:
@@ -203,6 +252,7 @@ def run(rec, tier, seed):
     jobs += [("øC-boundary", ks[i::8]) for i in range(8)]
     jobs += [("øc-exh", s, ns, 2 if quick else 3) for s in range(ns)]
     jobs += [("øD-words", s, ns) for s in range(ns)]
+    jobs += [("kinds", s, 4) for s in range(4)]
     bases = list(range(2, 301))
     if quick:
         small = [2, 3, 7, 10, 16, 27, 36, 64, 255, 256, 300]
@@ -237,6 +287,13 @@ def replay(case):
     elif kind == "øD":
         if not isinstance(v, str) or any(c not in string.printable or c in "\\`" or c not in vyxal.encoding.codepage for c in v):
             return None
+    elif kind == "kinds":
+        body, order = case.get("body"), case.get("order")
+        if not isinstance(body, str) or not body or any(c not in vyxal.encoding.codepage or c in "»«`\\" for c in body):
+            return None
+        if not isinstance(order, list) or sorted(order) != ["num", "raw", "str"][: len(order)] and not set(order) <= {"num", "raw", "str"}:
+            return None
+        return check_kinds(body, order)
     else:
         return None
     return check(kind, v, b)
